@@ -397,6 +397,7 @@ func checkFlow(p flowParams, x *verifkit.Exec) []verifkit.Violation {
 	}
 	x.Obs["statuses"] = statuses
 	a.checkRecovery(x)
+	a.checkWindow()
 	a.checkControl(x)
 	a.checkReconf(x)
 	a.checkApply(x)
@@ -1075,6 +1076,44 @@ func (a *analysis) checkApply(x *verifkit.Exec) {
 			if strings.HasPrefix(c.Name, "apply#") && c.Issued() && !c.ReturnedInTime() {
 				a.bad("C16/apply-never-returns", "the live apply %s never returned although every plugin and store request was answered", c.Name)
 			}
+		}
+	}
+}
+
+// checkWindow binds the DLQ nack window to what the pipeline does (C07), for the shape where the outcome sequence is
+// unambiguous: one source, one destination, no processor, a window configured. Per run, the destination's outcomes in
+// record order feed the reference window; a tolerated rejection must reach the DLQ, a refused one must neither reach
+// the DLQ nor be acknowledged.
+func (a *analysis) checkWindow() {
+	p := a.p
+	if p.Window <= 0 || p.Sources != 1 || p.Dests != 1 || len(p.Procs) > 0 || p.Batch != 1 {
+		return
+	}
+	ref := verifkit.NewDLQRef(p.Window, p.Thresh)
+	refused := map[int]bool{}
+	tolerated := map[int]bool{}
+	for _, e := range a.evs {
+		if e.Comp == "end" {
+			break
+		}
+		switch {
+		case isSource(e.Comp) && e.Kind == "open":
+			ref = verifkit.NewDLQRef(p.Window, p.Thresh) // a new run starts with a fresh window
+			refused, tolerated = map[int]bool{}, map[int]bool{}
+		case e.Comp == "d0" && e.Kind == "ack":
+			ref.Ack()
+		case e.Comp == "d0" && e.Kind == "nack":
+			if ref.Nack() {
+				tolerated[e.Idx] = true
+			} else {
+				refused[e.Idx] = true
+			}
+		case e.Comp == "dlq" && e.Kind == "recv" && refused[e.Idx]:
+			a.bad("C07/refused-rejection-dead-lettered/"+p.Engine, "record %d was rejected although the nack window (size %d, threshold %d) was already exhausted, yet it was written to the DLQ (event #%d): the pipeline should have stopped", e.Idx, p.Window, p.Thresh, e.Seq)
+		case isSource(e.Comp) && e.Kind == "ack" && refused[e.Idx]:
+			a.bad("C07/refused-rejection-acknowledged/"+p.Engine, "record %d was rejected with the nack window (size %d, threshold %d) exhausted, yet it was acknowledged to the source (event #%d)", e.Idx, p.Window, p.Thresh, e.Seq)
+		case isSource(e.Comp) && e.Kind == "ack" && tolerated[e.Idx]:
+			delete(tolerated, e.Idx)
 		}
 	}
 }
